@@ -498,7 +498,7 @@ pub fn run(sh: &mut Shard) {
         let _ = std::fs::remove_dir_all(&base);
         return;
     }
-    let mut rng = Rng::new(sh.args.shard_seed());
+    let rng = Rng::new(sh.args.shard_seed());
     let thorough = sh.args.thorough();
     part_a(sh, &mut rng.fork(1), &base, if thorough { 3000 } else { 150 });
     part_b(sh, &mut rng.fork(2), &base, if thorough { 12 } else { 2 });
